@@ -58,21 +58,41 @@ import (
 const maxIncidentsPerUnit = 3
 const maxClassesPerExtractor = 32
 
+// ring keeps the first and the last 96 KiB of a worker's stderr (the crashing goroutine is printed first).
 type ring struct {
-	mu sync.Mutex
-	b  []byte
+	mu   sync.Mutex
+	head []byte
+	tail []byte
 }
 
 func (r *ring) Write(p []byte) (int, error) {
 	r.mu.Lock()
-	r.b = append(r.b, p...)
-	if len(r.b) > 256<<10 {
-		r.b = append([]byte{}, r.b[len(r.b)-128<<10:]...)
+	rest := p
+	if room := 96<<10 - len(r.head); room > 0 {
+		n := len(rest)
+		if n > room {
+			n = room
+		}
+		r.head = append(r.head, rest[:n]...)
+		rest = rest[n:]
+	}
+	if len(rest) > 0 {
+		r.tail = append(r.tail, rest...)
+		if len(r.tail) > 192<<10 {
+			r.tail = append([]byte{}, r.tail[len(r.tail)-96<<10:]...)
+		}
 	}
 	r.mu.Unlock()
 	return len(p), nil
 }
-func (r *ring) String() string { r.mu.Lock(); defer r.mu.Unlock(); return string(r.b) }
+func (r *ring) String() string {
+	r.mu.Lock()
+	defer r.mu.Unlock()
+	if len(r.tail) == 0 {
+		return string(r.head)
+	}
+	return string(r.head) + "\n[...]\n" + string(r.tail)
+}
 
 type proc struct {
 	cmd    *exec.Cmd
@@ -238,6 +258,20 @@ func (m *manager) watch(stop <-chan struct{}) {
 	}
 }
 
+// firstGoroutine returns the stack of the goroutine that died (printed first by the runtime).
+func firstGoroutine(stderr string) string {
+	i := strings.Index(stderr, "\ngoroutine ")
+	if i < 0 {
+		return ""
+	}
+	g := stderr[i+1:]
+	if j := strings.Index(g, "\n\n"); j >= 0 {
+		g = g[:j]
+	}
+	return g
+}
+
+// classifyDeath names the cause of a dead worker from its stderr: the key part and a short excerpt.
 func classifyDeath(stderr string, ws syscall.WaitStatus) (kind, detail string) {
 	first := ""
 	for _, l := range strings.Split(stderr, "\n") {
@@ -246,11 +280,33 @@ func classifyDeath(stderr string, ws syscall.WaitStatus) (kind, detail string) {
 			break
 		}
 	}
-	low := strings.ToLower(stderr)
-	if strings.Contains(low, "out of memory") || strings.Contains(low, "cannot allocate memory") || (ws.Signaled() && ws.Signal() == syscall.SIGKILL) {
-		return "oom", first
+	g := firstGoroutine(stderr)
+	lines := strings.Split(g, "\n")
+	if len(lines) > 40 {
+		lines = lines[:40]
 	}
-	return "fatal:" + strings.TrimPrefix(ev.PanicSite(stderr), "extractor/filesystem/"), first
+	detail = first + "\n" + strings.Join(lines, "\n")
+	low := strings.ToLower(stderr)
+	switch {
+	case strings.Contains(low, "goroutine stack exceeds") || strings.Contains(low, "stack overflow"):
+		return "stack-overflow", detail
+	case strings.Contains(low, "out of memory") || strings.Contains(low, "cannot allocate memory") || (ws.Signaled() && ws.Signal() == syscall.SIGKILL):
+		return "oom", detail
+	}
+	site := ev.PanicSite(g)
+	if site == "unknown-site" {
+		// the fault happened in a goroutine started by a dependency: name its top frame instead
+		for _, l := range lines[1:] {
+			if l != "" && !strings.HasPrefix(l, "\t") && !strings.HasPrefix(l, "runtime.") && !strings.HasPrefix(l, "panic(") {
+				if k := strings.LastIndex(l, "("); k > 0 {
+					l = l[:k]
+				}
+				site = l
+				break
+			}
+		}
+	}
+	return "fatal:" + strings.TrimPrefix(site, "extractor/filesystem/"), detail
 }
 
 // run executes one unit to completion, restarting the worker after hangs and crashes.
@@ -382,7 +438,7 @@ func (m *manager) run(u unit) (out unitOutcome, err error) {
 			c.violation(u, u.Ex+":hang", fmt.Sprintf("%s made no progress for %v", u.Ex, time.Duration(m.wd.Load())), seq)
 		} else {
 			kind, detail := classifyDeath(p.stderr.String(), ws)
-			c.violation(u, u.Ex+":"+kind, fmt.Sprintf("worker process died (%s) %s", p.cmd.ProcessState, detail), seq)
+			c.violation(u, u.Ex+":"+kind, fmt.Sprintf("worker process died (%s) %s", p.cmd.ProcessState, strings.SplitN(detail, "\n", 2)[0]), seq, detail)
 		}
 		out.incidents++
 		// the mutants before seq ran but their counters died with the worker: count them as executed
